@@ -95,7 +95,8 @@ def timeline(chk, rng, conf_a, conf_b, steps):
                 elif pick[0] == 'rxpump':
                     sock = sysm.ep[pick[1]].sock
                     had = len(sock.inbox)
-                    runner.apply(('rxpump', pick[1], 1 << 30))
+                    # partial reads: a message may arrive split over several reads spread over time
+                    runner.apply(('rxpump', pick[1], rng.choice([1, 3, 1 << 30])))
                     if had:
                         last_rx[pick[1]] = sysm.ctx.now_ms
                 else:
@@ -105,9 +106,63 @@ def timeline(chk, rng, conf_a, conf_b, steps):
     return (rec, fails)
 
 
+class FakeDatetimeModule(object):
+    ''' Virtual-clock stand-in for the ``datetime`` module inside tcpcl.session
+    (the segment-size controller timestamps segments and ACKs). '''
+
+    def __init__(self, ctx):
+        import datetime as real
+        self._real = real
+        self._ctx = ctx
+        outer = self
+
+        class _DT(real.datetime):
+            @classmethod
+            def now(cls, tz=None):
+                return real.datetime.fromtimestamp(1000000 + outer._ctx.now_ms / 1000.0, tz)
+        self.datetime = _DT
+        self.timezone = real.timezone
+        self.timedelta = real.timedelta
+
+
+def modulated(chk, rng, mru, length, target):
+    ''' The adaptive segment-size controller is ON: whatever it computes, no
+    segment may exceed the peer's segment MRU (checked on the wire). '''
+    import tcpcl.session
+    conf_a = dict(segment_size_tx_initial=rng.choice([100, 1000, 4096]), modulate_target_ack_time=target)
+    conf_b = dict(segment_size_mru=mru)
+    runner = TC.Runner(cfg_a=conf_a, cfg_b=conf_b)
+    saved = tcpcl.session.datetime
+    tcpcl.session.datetime = FakeDatetimeModule(runner.sysm.ctx)
+    try:
+        runner.apply(('start', 'A'))
+        runner.apply(('start', 'B'))
+        TC.drain(runner)
+        runner.apply(('send', 'A', ('gen', rng.randrange(1 << 30), length)))
+        for _ in range(4000):
+            ena = TC.enabled_ops(runner, rng)
+            if not ena:
+                break
+            pick = ena[0] if rng.random() < 0.5 else rng.choice(ena)
+            runner.apply(('advance', rng.choice([1, 5, 20])))
+            if pick[0] == 'txpump':
+                runner.apply(('txpump', pick[1], pick[2], 1 << 30))
+            elif pick[0] == 'rxpump':
+                runner.apply(('rxpump', pick[1], 1 << 30))
+            else:
+                runner.apply(('pq', pick[1]))
+    finally:
+        tcpcl.session.datetime = saved
+    rec = TS.finish(runner, 'modulated', dict(no_model=True, mru=mru, length=length, keepalive=0))
+    return (rec, [])
+
+
 def build_all(chk):
     rng = chk.rng
     out = []
+    for (mru, length) in ([(1000, 30000), (500, 9000), (20000, 90000), (10239, 60000)] if chk.quick()
+                          else [(m, n) for m in (1, 100, 1000, 5000, 10239, 10240, 20000) for n in (3000, 30000, 90000)]):
+        out.append(modulated(chk, rng, mru, length, rng.choice([1, 2])))
     pairs = [(0, 0), (0, 5), (1, 1), (1, 2), (2, 1), (5, 30), (30, 5), (65535, 2), (3, 3)]
     if not chk.quick():
         pairs += [(a, b) for a in (0, 1, 2, 7, 60, 65535) for b in (0, 1, 3, 60, 65535)]
